@@ -103,7 +103,10 @@ class Explorer:
         k = 0
         while True:
             if k >= self.max_regions or (self.deadline and time.time() > self.deadline):
-                tr.inconc(f'{self.label}: region budget exhausted after {k} regions (no coverage certificate)')
+                if self.require_closure:
+                    tr.inconc(f'{self.label}: region budget exhausted after {k} regions (no coverage certificate)')
+                else:
+                    tr.notes.append(f'{self.label}: stopped after {k} regions (explored regions only, no coverage certificate)')
                 return out
             with tracing() as t:
                 d = t.dag
